@@ -54,6 +54,18 @@ def seeded_table():
                     f"{c.get('tests_pass_with_change')} | {c.get('demo_fails_with_change')} / {c.get('demo_passes_without')} | {how} |")
     return "\n".join(rows)
 
+def theorem_list():
+    out = []
+    for i in range(1, 21):
+        pid = f"C{i:02d}"
+        p = os.path.join(V, "evidence", pid + ".json")
+        if not os.path.exists(p):
+            continue
+        th = json.load(open(p)).get("coverage", {}).get("theorems", {})
+        names = sorted(n.split(".")[-1] for n in th)
+        out.append(f"* **{pid}** (`lean/AwsVerif/Props/{pid}.lean`, {len(names)}): " + ", ".join(f"`{n}`" for n in names))
+    return "\n".join(out)
+
 def inject(text, tag, body):
     b, e = f"<!-- BEGIN GENERATED {tag} -->", f"<!-- END GENERATED {tag} -->"
     if b not in text:
@@ -64,5 +76,6 @@ p = os.path.join(V, "DESIGN.md")
 t = open(p).read()
 t = inject(t, "STATUS", status_table())
 t = inject(t, "SEEDED", seeded_table())
+t = inject(t, "THEOREMS", theorem_list())
 open(p, "w").write(t)
 print("DESIGN.md tables regenerated")
